@@ -567,3 +567,43 @@ Proof.
     destruct a, cur; cbn in *; try reflexivity; lia.
   - apply IHl, Hc.
 Qed.
+
+(* ---------- the quit channels of the successive sessions of one client ---------- *)
+
+Lemma client_quits_app : forall a b st, client_quits st (a ++ b) = client_quits (client_quits st a) b.
+Proof. intros a b st. unfold client_quits. apply fold_left_app. Qed.
+
+Lemma client_stops : forall n st, client_quits (false :: st) (repeat OpStop (S n)) = true :: st.
+Proof.
+  intros n st. unfold client_quits. cbn [repeat fold_left client_op].
+  induction n as [|n IH]; cbn [repeat fold_left client_op]; [reflexivity|exact IH].
+Qed.
+
+Lemma client_session : forall n st, client_quits st (session_ops n) = true :: st.
+Proof. intros n st. unfold session_ops. change (OpNew :: ?l) with ([OpNew] ++ l). rewrite client_quits_app. apply client_stops. Qed.
+
+Lemma client_history : forall h st, client_quits st (history_ops h) = repeat true (length h) ++ st.
+Proof.
+  intros h. induction h as [|n h IH]; intros st; [reflexivity|].
+  unfold history_ops in *. cbn [flat_map]. rewrite client_quits_app, client_session, IH.
+  cbn [length]. change (true :: st) with ([true] ++ st). rewrite app_assoc. f_equal.
+  change [true] with (repeat true 1). rewrite <- repeat_app. f_equal. lia.
+Qed.
+
+(* every session of the history has its quit closed when it has ended - the k-th as the first *)
+Lemma history_every_quit_closed : forall h k, k < length h ->
+  quit_closed (client_quits [] (history_ops h)) k = true.
+Proof.
+  intros h k Hk. rewrite client_history, app_nil_r. unfold quit_closed.
+  assert (Hr : forall m, rev (repeat true m) = repeat true m).
+  { induction m as [|m IH]; [reflexivity|]. cbn [repeat rev]. rewrite IH.
+    change [true] with (repeat true 1). rewrite <- repeat_app. replace (m + 1) with (S m) by lia. reflexivity. }
+  rewrite Hr. clear Hr. revert k Hk. generalize (length h) as m.
+  induction m as [|m IH]; intros k Hk; [lia|]. destruct k as [|k]; [reflexivity|].
+  cbn [repeat nth]. apply IH. lia.
+Qed.
+
+(* a new session's quit is open, and establishing / ending it leaves the channels of the earlier sessions as they were *)
+Lemma client_session_frame : forall n st,
+  client_quits st [OpNew] = false :: st /\ tl (client_quits st (session_ops n)) = st.
+Proof. intros n st. split; [reflexivity|]. rewrite client_session. reflexivity. Qed.
